@@ -156,7 +156,8 @@ def compile_code(
                 if not value:
                     tag = tag[3:].strip()
 
-                if hasattr(options, tag):
+                # only option fields may be set (hasattr() also accepts __class__, __dict__, ...)
+                if tag in getattr(options, "__dataclass_fields__", {}):
                     setattr(options, tag, value)
 
     set_output_mode(OutputMode.COMPACT if options.compact else OutputMode.VERBOSE)
